@@ -249,7 +249,14 @@ func runProxy(rec *Rec, w *histWorld, sc *ProxyScenario, rnd *rand.Rand) {
 		if sc.Kind == "push" {
 			st := s.Push(route, arg, settings...)
 			out.stat = statStr(st)
-			time.Sleep(3 * time.Millisecond)
+			// a push is handled asynchronously: wait for the backend to see it (bounded: a push for a route the
+			// backend does not serve never arrives)
+			wait := 150 * time.Millisecond
+			if sc.Method == "missing" || sc.Failure != "none" {
+				wait = 15 * time.Millisecond
+			}
+			WaitUntil(wait, func() bool { px.mu.Lock(); defer px.mu.Unlock(); return px.enters > before })
+			time.Sleep(time.Millisecond)
 		} else {
 			done := make(chan erpc.CallCmd, 1)
 			go func() { done <- s.Call(route, arg, res, settings...) }()
